@@ -120,4 +120,57 @@ theorem step_qname_error {s : St} (hi : HInv s) (i : Bool) (u : Str) (e : Err)
   · exact Or.inl h2
   · exact Or.inr (splitOrWhole_none h2)
 
+/-- the second half of `compute_qname_strict` (generate=True) fails only when the strict split does -/
+theorem strictTail_error {st : Store} (hi : st.Inv) (m : Mgr) (u : Str) (e : Err)
+    (h : (Mgr.strictTail st m u true).2.2 = .error e) :
+    e = .ValueError ∧ splitUri nameStartCats u = none := by
+  unfold Mgr.strictTail at h
+  simp only at h
+  split at h
+  · exact absurd h (by simp)
+  · split at h
+    · next hsp => injection h with h; exact ⟨h.symm, hsp⟩
+    · next n0 name0 _ =>
+      exfalso
+      split at h
+      · exact absurd h (by simp)
+      · next e' he' =>
+        obtain ⟨q, hq⟩ := lookupOrGenerate_total hi
+          (Mgr.ensureStrie { cache := m.cache, scache := validEntry st m.scache u, trie := m.trie, strie := m.strie } n0)
+          n0 name0
+        rw [hq] at he'; exact absurd he' (by simp)
+
+/-- `compute_qname_strict(uri)` (generate=True): ValueError only, and only for a forbidden character, an
+    IRI `split_uri` cannot split, or one the strict split (at a name-start character) cannot split -/
+theorem computeQnameStrict_error {st : Store} (hi : st.Inv) {m : Mgr} (hc : CacheOK m.cache)
+    (hs : CacheOK m.scache) (u : Str) (e : Err)
+    (h : (Mgr.computeQnameStrict st m u true).2.2 = .error e) :
+    e = .ValueError ∧ (validUri u = false ∨ splitOrWhole st u = none ∨ splitUri nameStartCats u = none) := by
+  have h0 := computeQname_all (st := st) u true hc hs
+  unfold Mgr.computeQnameStrict at h
+  simp only at h
+  split at h
+  · next e' he' =>
+    injection h with h; subst h
+    obtain ⟨a, b⟩ := computeQname_error hi m u _ he'
+    exact ⟨a, b.elim Or.inl (fun x => Or.inr (Or.inl x))⟩
+  · next p n name hq =>
+    split at h
+    · exact absurd h (by simp)
+    · obtain ⟨a, b⟩ := strictTail_error (h0.reach.inv hi) _ u e h
+      exact ⟨a, Or.inr (Or.inr b)⟩
+
+theorem step_qstrict_error {s : St} (hi : HInv s) (i : Bool) (u : Str) (e : Err)
+    (h : (s.step (.qstrict i u)).2 = .err e) :
+    e = .ValueError ∧ (validUri u = false ∨
+      (splitUri splitStartCats u = none ∧ (s.store.prefix u = none ∨ s.store.prefix u = some [])) ∨
+      splitUri nameStartCats u = none) := by
+  simp only [St.step] at h
+  obtain ⟨h1, h2⟩ := computeQnameStrict_error hi.store (hi.mgr i).1 (hi.mgr i).2 u e (outStr_err h)
+  refine ⟨h1, ?_⟩
+  rcases h2 with h2 | h2 | h2
+  · exact Or.inl h2
+  · exact Or.inr (Or.inl (splitOrWhole_none h2))
+  · exact Or.inr (Or.inr h2)
+
 end RV.C17
